@@ -157,7 +157,24 @@ def validate_hooks(c, hook_file, name, max_events=400, max_nj=12, limit=None):
                 continue
             if nacc == len(ts):
                 break
-            rejected.append(dict(kind="mismatch", trace=ts[nacc]))
+            # Which recorded worker goroutine is an initial worker and which a replacement is a guess of the
+            # recorder (order of first recorded event); before calling the trace a mismatch, try birth order
+            # (goroutine ids) as well.
+            bad = ts[nacc]
+            alt = dict(bad)
+            order = sorted(range(len(bad["workers"])), key=lambda i: bad.get("workerg", [0] * len(bad["workers"]))[i])
+            alt["workers"] = [bad["workers"][i] for i in order]
+            alt["workerg"] = [bad.get("workerg", [])[i] for i in order] if bad.get("workerg") else []
+            ok_alt = False
+            if order != list(range(len(order))):
+                json.dump({"traces": [alt]}, open(path, "w"))
+                r2 = c.tlc("SchedTrace", hook_cfg(path, max(alt["nj"], 1), alt["n"], max(len(alt["workers"]) - alt["n"], 0)),
+                           "hook-%s-%s-alt" % (name, gname), workers=1, timeout=1800, dfs=True, allow_violation=True)
+                ok_alt = '"TRACE-ACCEPTED", 1,' in r2["output"] and not r2["violated"]
+            if ok_alt:
+                accepted += 1
+            else:
+                rejected.append(dict(kind="mismatch", trace=bad))
             ts = ts[nacc + 1:]
             if len(rejected) >= 5:
                 break
